@@ -1,4 +1,5 @@
 import WebpVerif.Lemmas.EncHuff
+import WebpVerif.Lemmas.EncHuffCodes
 
 /-!
 # C14 — encoder prefix codes are complete, length-limited and canonical for any histogram
@@ -44,9 +45,31 @@ theorem limit_move (limit i : Nat) (hi : i + 1 ≤ limit) :
     2 ^ (limit - i) + 2 ^ (limit - limit) = 2 * 2 ^ (limit - (i + 1)) + 1 :=
   move_lowers_by_one limit i hi
 
-/-- The property at full strength for the model (stated; proved parts above; the composition
-    through the heap, the limiting loop and the reassignment is validated by the correspondence
-    run, which evaluates exactly these clauses on the real output). -/
+/-- **Final assert ⇔ Kraft equality**: for lengths within the limit, the value `code` that the
+    closing `assert_eq!(code, 2 << length_limit)` tests is exactly twice the scaled Kraft sum; so
+    the assert passes iff the lengths form a complete code -/
+theorem final_assert_is_kraft (lengths : Array Nat) (limit : Nat) (h : ∀ l ∈ lengths.toList, l ≤ limit) :
+    (assignCodes lengths limit).2 = 2 * Prefix.kraft lengths.toList limit ∧
+    ((assignCodes lengths limit).2 = 2 * 2 ^ limit ↔ Prefix.kraft lengths.toList limit = 2 ^ limit) := by
+  have e := final_eq_kraft lengths limit h
+  exact ⟨e, by rw [e]; omega⟩
+
+/-- **Canonical code words**: for lengths within the limit whose Kraft sum does not exceed the
+    code space, every used symbol receives the lossless specification's canonical code word
+    (`next_code[len]` + rank among equal lengths), bit-reversed for the LSB-first stream; all
+    lengths and limits up to 16 -/
+theorem codes_canonical (lengths : Array Nat) (limit : Nat) (hlim : limit ≤ 16)
+    (hall : ∀ l ∈ lengths.toList, l ≤ limit) (hk : Prefix.kraft lengths.toList limit ≤ 2 ^ limit) :
+    ∀ j, j < lengths.size → lengths[j]! ≠ 0 →
+      some (assignCodes lengths limit).1[j]! =
+        (Prefix.canonicalCode lengths.toList j).map (fun c => Prefix.reverseBits c lengths[j]!) :=
+  assign_canonical lengths limit hlim hall hk
+
+/-- The property at full strength for the model (stated; proved: Kraft equality of any tree,
+    positivity, the limiting move, and all of phase 4 - final assert ⇔ Kraft equality, canonical
+    bit-reversed code words; the composition through the heap, the limiting loop and the
+    reassignment is validated by the correspondence run, which evaluates exactly these clauses on
+    the real output). -/
 def full : Prop :=
   ∀ (freqs : List Nat) (limit : Nat), freqs.length ≤ 2 ^ limit → limit ≤ 15 → 1 ≤ limit → freqs.sum < 2 ^ 32 →
     2 ≤ (freqs.filter (· > 0)).length →
